@@ -220,16 +220,20 @@ impl LyNative for ListStr {
     let mut buf = String::new();
     buf.push('[');
 
-    if let Some((last, rest)) = list.split_last() {
-      for item in rest.iter() {
-        // if already string quote and add to temps
-        let item = *item;
-        if_let_obj!(ObjectKind::String(string) = (item) {
-          quote_string(&mut buf, &string);
-          buf.push_str(", ");
-          continue;
-        });
+    // the list is read again after every callback, an element's
+    // str method may clear, shrink or grow it
+    let mut index = 0;
+    while index < list.len() {
+      let item = list[index];
 
+      if index > 0 {
+        buf.push_str(", ");
+      }
+
+      // if already string quote and add to temps
+      if_let_obj!(ObjectKind::String(string) = (item) {
+        quote_string(&mut buf, &string);
+      } else {
         // call '.str' method on each value
         let result = hooks
           .get_method(item, self.method_name)
@@ -237,33 +241,15 @@ impl LyNative for ListStr {
 
         if_let_obj!(ObjectKind::String(string) = (result) {
           buf.push_str(&string);
-          buf.push_str(", ");
         } else {
           // if error throw away temporary strings
           return create_error!(self.error, hooks, format!(
               "Expected type str from {item}.str()"
             ));
         });
-      }
+      });
 
-      if_let_obj!(ObjectKind::String(string) = (*last) {
-        quote_string(&mut buf, &string);
-      } else {
-        // call '.str' method on each value
-        let result = hooks
-          .get_method(*last, self.method_name)
-          .and_then(|method| hooks.call_method(*last, method, &[]))?;
-
-        if_let_obj!(ObjectKind::String(string) = (result) {
-          buf.push_str(&string);
-        } else {
-          // if error throw away temporary strings
-          return create_error!(self.error, hooks, format!(
-              "Expected type str from {}.str()",
-              *last
-            ));
-        });
-      })
+      index += 1;
     }
 
     buf.push(']');
